@@ -30,6 +30,11 @@ oer_decode(const asn_codec_ctx_t *opt_codec_ctx,
 		opt_codec_ctx = &s_codec_ctx;
 	}
 
+	if(!type_descriptor->op->oer_decoder) {
+		/* OER is not defined for this type */
+		ASN__DECODE_FAILED;
+	}
+
 	/*
 	 * Invoke type-specific decoder.
 	 */
@@ -83,6 +88,11 @@ oer_open_type_get(const asn_codec_ctx_t *opt_codec_ctx,
     if(size - len_len < container_len) {
         /* More data is expected */
         return 0;
+    }
+
+    if(!td->op->oer_decoder) {
+        /* OER is not defined for this type */
+        return -1;
     }
 
     dr = td->op->oer_decoder(opt_codec_ctx, td, constraints, struct_ptr,
